@@ -75,7 +75,9 @@ def roundtrip_cmds(chk, backends, thorough, mode, emax_fn=None, xor_tables=None)
         if be == BE_XOR:
             for ti, (k, m, hd) in enumerate(xor_tables or XOR_TABLES):
                 lcs = len_classes(be, k)
-                picks = lcs if (thorough or ti < 2) else [lcs[ti % 6], lcs[(ti + 3) % 6]]
+                # + a length whose per-fragment payload runs through the word loops with a tail (12..40 bytes, all residues mod 16)
+                mid = k * 4 * [3, 5, 6, 7, 9, 10][ti % 6] - 1
+                picks = (lcs + [mid]) if (thorough or ti < 2) else [lcs[ti % 6], lcs[(ti + 3) % 6], mid]
                 for li, L in enumerate(picks):
                     for ct in ([1, 2] if (thorough and ti % 4 == 0) else [1 + (ti + li) % 2]):
                         i += 1
@@ -83,7 +85,8 @@ def roundtrip_cmds(chk, backends, thorough, mode, emax_fn=None, xor_tables=None)
         else:
             for (k, m) in rs_shapes(nmax):
                 lcs = len_classes(be, k)
-                picks = lcs if (thorough and k + m <= 8) else [lcs[(k + m) % 6], lcs[(k * 3 + m) % 6]]
+                mid = k * 2 * [9, 12, 17, 19, 22, 33][(k + 2 * m) % 6] + 1      # payloads of 20..68 bytes, every residue mod 8
+                picks = (lcs + [mid]) if (thorough and k + m <= 8) else [lcs[(k + m) % 6], lcs[(k * 3 + m) % 6], mid]
                 for li, L in enumerate(picks):
                     i += 1
                     cmds.append(sweep_cmd(be, k, m, m, 1 + (k + m + li) % 2, L, _seed_of(chk, i), 0, m, 10**9, mode))
@@ -377,19 +380,26 @@ def c05():
     for k0 in range(0, 34, 3):
         cmds_a.append("create_box 3 %d %d 0 8 0 7 32 1" % (k0, min(k0 + 2, 33)))
     # (b) exhaustive decode + reconstruct of every |E| < hd, payload sizes that are / are not multiples of 16
-    pays = [4, 12, 20, 36, 100, 4100]
+    # per-fragment payload sizes (always a multiple of 4 for this backend): every residue modulo 16, blocks shorter than
+    # 16, and larger ones
+    pays = [4, 8, 12, 16, 20, 24, 32, 36, 40, 48, 100, 104, 4096, 4100]
+    NP = len(pays)
     cmds_b = []
     for ti, (k, m, hd) in enumerate(XOR_TABLES):
-        picks = pays if thorough else [pays[ti % 6], pays[(ti + 2) % 6]]
+        picks = pays if thorough else [pays[ti % NP], pays[(ti * 5 + 3) % NP], pays[(ti * 3 + 7) % NP]]
         for pi, p in enumerate(picks):
             cmds_b.append(sweep_cmd(BE_XOR, k, m, hd, 1 + (ti + pi) % 2, k * p, _seed_of(chk, ti * 7 + pi), 0, hd - 1, 10**9, 1 | 2 | 8))
     f1, e1, r1 = run_sweeps("asan", cmds_a + cmds_b, "C05-asan")
     # portable (non-SSE2) build flavour
     cmds_n = []
     for ti, (k, m, hd) in enumerate(XOR_TABLES):
-        picks = pays if thorough else [pays[(ti + 1) % 6]]
+        picks = pays if thorough else [pays[(ti + 1) % NP], pays[(ti * 5 + 9) % NP]]
         for pi, p in enumerate(picks):
             cmds_n.append(sweep_cmd(BE_XOR, k, m, hd, 1, k * p, _seed_of(chk, 500 + ti * 7 + pi), 0, hd - 1, 10**9, 1 | 8))
+    # payloads of 64 KiB and more per fragment, both flavours (sampled erasure sets)
+    for j, (k, m, hd) in enumerate([(5, 5, 3), (10, 6, 4), (6, 6, 4), (12, 6, 3)] if thorough else [(5, 5, 3), (10, 6, 4)]):
+        big = sweep_cmd(BE_XOR, k, m, hd, 1 + j % 2, k * (65536 + 4 * (j + 1)), _seed_of(chk, 900 + j), 1, hd - 1, 6, 1 | 8)
+        cmds_b.append(big); cmds_n.append(big)
     f2, e2, r2 = run_sweeps("nosse", cmds_n, "C05-nosse")
     v = validate("TraceCodes", f1 + f2)
     _collect(chk, v, ["C05", "C01", "C02", "C03", "fault", "create failed", "encode failed"])
@@ -409,8 +419,8 @@ def c05():
         "TLC: GF(2) rank of every < hd erasure set of all 38 golden tables (distance >= hd), transcribed decoder and "
         "reconstruct exact on all of them; implementation: equations extracted through encode of unit data and the instance's "
         "two tables compared with the golden copy, every |E|<hd decoded (in order and shuffled/unaligned) and every missing "
-        "index reconstructed, payload sizes {4,12,20,36,100,4100} (%s), SSE2 and portable builds, create box k 0..33 x m 0..8 x hd 0..7; "
-        "non-trivial = decode events with a missing fragment + reconstruct events" % ("all" if thorough else "two per table, rotating"),
+        "index reconstructed, payload sizes {4,8,12,16,20,24,32,36,40,48,100,104,4096,4100} (%s) and >= 64 KiB (sampled), SSE2 and portable builds, create box k 0..33 x m 0..8 x hd 0..7; "
+        "non-trivial = decode events with a missing fragment + reconstruct events" % ("all" if thorough else "three (SSE2) + two (portable) per table, rotating"),
         ["TLC", "ecdrive memcmp", "ASan/UBSan"])
 
 
